@@ -187,7 +187,7 @@ def _opt(x, f):
     return 'None' if x is None else '(Some %s)' % f(x)
 
 def _z(n):
-    return '%d' % n if n >= 0 else '(%d)' % n
+    return '%d%%Z' % n if n >= 0 else '(%d)%%Z' % n
 
 def circuit_term(conn):
     ws = '; '.join('WC %d %s [%s]' % (w['id'], _pin(w['drv']), '; '.join(_pin(p) for p in w['rd'])) for w in conn['wires'])
